@@ -405,8 +405,48 @@ func ruleR183(c *Ctx) {
 	}
 	var problems []string
 	n := 0
+	samples := []rune{'<', '>', '&', '\'', '"', '\t', '\n', '\r', 'a', ' ', '=', ']', 0xe4, 0x2028, 0xd7ff, 0xe000, 0xfffd, 0x10000, 0x1f600, 0x10ffff}
+	// every code point the escaper (or a function of the package it calls) mentions as a constant is a sample as well:
+	// a new entry of the escape table is evaluated whatever character it is for
+	{
+		seen := map[rune]bool{}
+		for _, r := range samples {
+			seen[r] = true
+		}
+		bodies := []ast.Node{fd.Body}
+		ast.Inspect(fd.Body, func(x ast.Node) bool {
+			if call, ok := x.(*ast.CallExpr); ok {
+				if cal := Callee(info, call); cal != nil && cal.Pkg() == xa.wp.Types {
+					if hd := findFuncDecl(xa.wp, cal); hd != nil && hd.Body != nil && hd != fd {
+						bodies = append(bodies, hd.Body)
+					}
+				}
+			}
+			return true
+		})
+		for _, b := range bodies {
+			ast.Inspect(b, func(x ast.Node) bool {
+				e, ok := x.(ast.Expr)
+				if !ok {
+					return true
+				}
+				tv := info.Types[e]
+				if tv.Value == nil || tv.Value.Kind() != constant.Int {
+					return true
+				}
+				if bt, ok := tv.Type.Underlying().(*types.Basic); !ok || (bt.Kind() != types.Int32 && bt.Kind() != types.UntypedRune) {
+					return true
+				}
+				if v, ok := constant.Int64Val(tv.Value); ok && v > 0 && v <= 0x10ffff && !seen[rune(v)] && len(samples) < 200 {
+					seen[rune(v)] = true
+					samples = append(samples, rune(v))
+				}
+				return true
+			})
+		}
+	}
 	for _, cx := range contexts {
-		for _, r := range []rune{'<', '>', '&', '\'', '"', '\t', '\n', '\r', 'a', ' ', '=', ']', 0xe4, 0x2028, 0xd7ff, 0xe000, 0xfffd, 0x10000, 0x1f600, 0x10ffff} {
+		for _, r := range samples {
 			sinks, ok := c.escaperSinksCtx(xa.wp, fd, r, cx.bools)
 			if !ok {
 				c.Undecided(key, fd.Pos(), "loop over the runes not found")
